@@ -755,7 +755,27 @@ theorem inv_step (chk : Nat → Nat → Bool) (s s' : State) (l : Label) (hI : I
     have hT := hI.t t
     have hG := hI.g
     cases hpc : (s.thr t).loc.pc <;> simp only [Local.next, hpc] at hs
-    case idle | retSnap | retBool | sPanic | aPanic => simp at hs
+    case idle | retSnap | retBool | sPanic | aPanic | retSeq => simp at hs
+    case qSeq =>
+      cases hm : (s.mem .seq)[ts]? with
+      | none => simp [hm] at hs
+      | some m =>
+        simp only [hm] at hs
+        split at hs
+        · rename_i hv
+          simp at hs; subst hs
+          have hlg := hT.lg
+          refine inv_load hI t ts .seq .rlx m _ hm ?_ ?_ ?_ ?_ hv
+          · simp [Local.feedLoad, hpc, Pc.inCS]
+          · intro hh; have := hT.lock.2 hh; simp [hpc, Pc.inCS] at this
+          · intro hh; have := hT.lock.2 hh; simp [hpc, Pc.inCS] at this
+          · intro hlt
+            constructor
+            · simp [Local.feedLoad, hpc, RInv]
+            · rw [logOf_ne (by simp [Local.feedLoad, hpc])]
+              exact LInv_pc (by simp [Local.feedLoad, hpc, Pc.inSnap]) (by simp [Local.feedLoad, hpc])
+                (LInv_mono (loadView_ge hv .seq) hlg)
+        · simp at hs
     case sSeq =>
       cases hm : (s.mem .seq)[ts]? with
       | none => simp [hm] at hs
@@ -1102,8 +1122,8 @@ theorem hist_step (chk : Nat → Nat → Bool) (s s' : State) (l : Label)
       subst h; exact Or.inl rfl
     case tTry =>
       by_cases hh : s.held = none <;> simp [hh] at h <;> (subst h; exact Or.inl rfl)
-    case idle | retSnap | retBool | sPanic | aPanic => simp at h
-    case sSeq | sSeq2 | aSeq =>
+    case idle | retSnap | retBool | sPanic | aPanic | retSeq => simp at h
+    case sSeq | sSeq2 | aSeq | qSeq =>
       cases hm : (s.mem .seq)[ts]? <;> simp only [hm] at h
       · simp at h
       · split at h <;> simp at h; subst h; exact Or.inl rfl
@@ -1626,8 +1646,8 @@ theorem uinv_step {chk : Nat → Nat → Bool} {s s' : State} (hI : Inv chk s) (
     have hT := hI.t t
     simp only [step] at hs
     cases hpc : (s.thr t).loc.pc <;> simp only [Local.next, hpc] at hs
-    case idle | retSnap | retBool | sPanic | aPanic => simp at hs
-    case sSeq | sSeq2 | aSeq =>
+    case idle | retSnap | retBool | sPanic | aPanic | retSeq => simp at hs
+    case sSeq | sSeq2 | aSeq | qSeq =>
       cases hm : (s.mem .seq)[ts]? <;> simp only [hm] at hs
       · simp at hs
       · split at hs <;> simp at hs
@@ -1785,6 +1805,25 @@ theorem laws (chk : Nat → Nat → Bool) : (mach chk).Laws chk (Ok chk) False w
   uinv := fun h => h.2 _
   sorted := fun h => h.1.g.sorted
   global := fun h => h.elim
+  seqRet := by
+    intro s s' t ts h hs hpc
+    have hpc : (s.thr t).loc.pc = .qSeq := hpc
+    have hG := h.1.g
+    simp only [step, Local.next, hpc] at hs
+    cases hm : (s.mem .seq)[ts]? with
+    | none => simp [hm] at hs
+    | some m =>
+      simp only [hm] at hs
+      split at hs
+      · simp at hs; subst hs
+        have hval := hG.seqval ts m hm
+        have hlt : ts < (s.mem .seq).length := (List.getElem?_eq_some_iff.mp hm).1
+        refine ⟨?_, ?_⟩
+        · show ((upd s.thr t _ t).loc).sq = (upd s.thr t _ t).view .seq
+          simp [upd_same, Local.feedLoad, hpc, hval, loadView]
+        · show (upd s.thr t _ t).view .seq < s.hist.length
+          rw [hG.hlen]; simp [upd_same, loadView]; exact hlt
+      · simp at hs
 
 end Woodpile.Abt.RA
 
